@@ -147,6 +147,7 @@ struct JSON {
                 }
 
                 // Malformed: nothing of it is valid, so the enclosing containers must fail too.
+                stream.Clear();
                 offset = length;
                 return ValueT{};
             }
@@ -229,6 +230,8 @@ struct JSON {
                         return ValueT{String<Char_T>{str, len}};
                     }
 
+                    // What a malformed string has left in the stream is not part of the next one.
+                    stream.Clear();
                     break;
                 }
 
